@@ -11,7 +11,7 @@ func genSource(prop string, seed uint64, idx int) string {
 	case "c02":
 		f.Funcs, f.Varargs, f.MultiAssign, f.Closures, f.Goto, f.Errors, f.Tables = 14, 12, 5, 1, 0, 1, 4
 	case "c03":
-		f.Closures, f.Goto, f.Errors, f.Funcs, f.Coroutines, f.Fenv, f.Varargs, f.MultiAssign = 14, 6, 5, 4, 0, 4, 1, 2
+		f.Closures, f.Goto, f.Errors, f.Funcs, f.Coroutines, f.Fenv, f.Varargs, f.MultiAssign = 14, 6, 5, 4, 3, 4, 1, 2
 	}
 	r := lib.NewRand(seed*1000003 + uint64(idx))
 	g := luagen.NewGen(r, f)
@@ -115,4 +115,34 @@ var corpus = []string{
 	`local fs = {}; for i = 1, 3 do do local x = i * 10; fs[i] = function() x = x + 1 return x end; if i == 2 then break end end end; emit((function(a,b,c,d,e) return e end)(1,2,3,4,5)); emit(fs[1](), fs[2](), fs[2]())`,
 	`local x = 1; local function get() return x end; local function set(v) x = v end; emit(pcall(error, "e")); x = 2; emit(get()); set(5); emit(x, get())`,
 	`local a1 = 8; local function g() return a1 end; for i=1,2 do if i==1 then goto cont end ::cont:: end; a1 = 100; emit(g())`,
+	// coroutines: create/resume/yield/status/running, wrap (values, end, errors of every kind), upvalues of a suspended
+	// and of a dead coroutine, nested coroutines, resume of the running coroutine
+	`local co = coroutine.create(function(a, b) emit("start", a, b); local x, y = coroutine.yield(a + b); emit("resumed", x, y); local z = coroutine.yield(x * 2); emit("again", z); return "done", 99 end)
+emit(coroutine.status(co))
+emit(coroutine.resume(co, 1, 2))
+emit(coroutine.status(co))
+emit(coroutine.resume(co, 10, 20))
+emit(coroutine.resume(co, "z"))
+emit(coroutine.status(co))
+emit(coroutine.resume(co))
+emit(coroutine.running())`,
+	`local gen = coroutine.wrap(function() for i = 1, 3 do coroutine.yield(i) end return "end" end)
+emit(gen(), gen(), gen(), gen())
+emit(pcall(gen))
+local w = coroutine.wrap(function() error("boom") end)
+emit(pcall(w))
+local w2 = coroutine.wrap(function() local t = nil; return t.x end)
+emit(pcall(w2))
+local w3 = coroutine.wrap(function() error({}) end)
+emit(pcall(w3))`,
+	`local f; local co = coroutine.create(function() local x = 5; f = function() x = x + 1; return x end; coroutine.yield(); x = x + 100; local z = nil; return z.y end)
+emit(coroutine.resume(co)); emit(f()); emit(coroutine.resume(co)); emit(f(), coroutine.status(co))
+local co2 = coroutine.create(function(...) emit("args", ...); emit("in", coroutine.status(co2), coroutine.running() == co2); local a, b, c = coroutine.yield(1, 2, 3); emit(a, b, c); coroutine.yield() end)
+emit(coroutine.resume(co2, "p", "q")); emit(coroutine.resume(co2, 7)); emit(coroutine.resume(co2)); emit(coroutine.resume(co2)); emit(coroutine.resume(co2))
+emit(pcall(coroutine.yield, 1))
+emit(coroutine.resume(coroutine.create(emit), 5, 6))`,
+	`local outer = coroutine.create(function() local inner = coroutine.create(function() emit("inner", coroutine.status(outer)); coroutine.yield("i1"); return "i2" end); emit(coroutine.resume(inner)); coroutine.yield("o1"); emit(coroutine.resume(inner)); emit(coroutine.resume(inner)); return "o2" end)
+emit(coroutine.resume(outer)); emit(coroutine.resume(outer)); emit(coroutine.resume(outer))`,
+	`local co = coroutine.wrap(function() local x = 1; local f = function() x = x + 1 return x end; coroutine.yield(f); x = x + 10; coroutine.yield(f); error({}) end); local f = co(); emit(f()); co(); emit(f()); emit(pcall(co)); emit(f(), f())`,
+	`local self = coroutine.wrap(function() return coroutine.resume(coroutine.running()) end); emit(self())`,
 }
